@@ -231,8 +231,13 @@ func genCases(seed int64, thorough bool, tis []*tinfo) []dcase {
 						news = append(news, int64(cur+d))
 					}
 				}
+				if n.Type == rc.TSimpleList || n.Type == rc.TList || n.Type == rc.TMap {
+					// a length with the sign bit set announces (read as unsigned) far more than remains and
+					// is (read as signed) no length at all
+					news = append(news, -1, -2147483648)
+				}
 				for _, nl := range news {
-					if nl <= int64(cur) {
+					if nl >= 0 && nl <= int64(cur) {
 						continue
 					}
 					var lenBytes []byte
@@ -243,6 +248,9 @@ func genCases(seed int64, thorough bool, tis []*tinfo) []dcase {
 						lenBytes = []byte{byte(nl >> 24), byte(nl >> 16), byte(nl >> 8), byte(nl)}
 					default:
 						lenBytes = rc.AppendInt(nil, nl, 0)
+						if nl < 0 {
+							lenBytes = rc.AppendIntWidth(nil, nl, rc.TInt, 0) // ff ff ff ff / 80 00 00 00
+						}
 					}
 					d := append(append(append([]byte(nil), base[:n.LenPos]...), lenBytes...), base[n.LenEnd:]...)
 					cases = append(cases, dcase{ti: ti, kind: "L", what: fmt.Sprintf("%s length at offset %d inflated from %d to %d", rc.TypeName(n.Type), n.LenPos, cur, nl),
